@@ -262,7 +262,8 @@ func checkC07(c *Check) {
 	// the rules that are evaluated are the configured ones: nothing rewrites them after loading
 	configFieldsNotWritten(c, "C07.R3", "rules-as-configured", map[string]bool{
 		pkgCfgV1 + ".Config.TriggerRules": true, pkgCfgV1 + ".TriggerRule.ExcludedPaths": true, pkgCfgV1 + ".TriggerRule.IncludedPaths": true,
-		pkgCfgV1 + ".StringMatch.MatchType": true,
+		pkgCfgV1 + ".StringMatch.MatchType": true, pkgCfgV1 + ".StringMatch_Exact.Exact": true, pkgCfgV1 + ".StringMatch_Prefix.Prefix": true,
+		pkgCfgV1 + ".StringMatch_Suffix.Suffix": true, pkgCfgV1 + ".StringMatch_Regex.Regex": true,
 	}, "the trigger rules that decide are no longer the configured ones (rules are OR-ed: dropping an empty rule, which triggers for every path, opens every excluded path)")
 }
 
